@@ -35,6 +35,16 @@ def call(dec, inp):
         return ("exc", type(e).__name__)
 
 
+def call_raw(dec, inp):
+    """Like call(), but also hands back the message object."""
+    ep, arg, kw = inp
+    try:
+        r = getattr(dec, ep)(arg, **kw)
+        return (("msg", project.msg_proj(r)) if r is not None else ("none",)), r
+    except Exception as e:  # noqa: BLE001
+        return ("exc", type(e).__name__), None
+
+
 def ev_input(ev: hist.Ev, rng):
     fmt = rng.choice(["ebyte", "ebyte", "usb", "yd"])
     if fmt == "ebyte":
@@ -193,13 +203,12 @@ def run_shard(spec, acc):
             got[j].append(o)
             # keep the encoders busy with what was just decoded
             if o[0] == "msg":
-                try:
-                    m = getattr(decs[(j + 1) % k], inp[0])(inp[1], **inp[2])
-                except Exception:  # noqa: BLE001
-                    m = None
+                # the neighbour sees this input too; whatever it does with it is part of the neighbour's own history
+                nb_ = (j + 1) % k
+                o2, m = call_raw(decs[nb_], inp)
+                sub[nb_].append(inp)
+                got[nb_].append(o2)
                 if m is not None:
-                    sub[(j + 1) % k].append(inp)
-                    got[(j + 1) % k].append(("msg", project.msg_proj(m)))
                     try:
                         enc_out[j].append(encs[j].encode_ebyte(m))
                     except Exception:  # noqa: BLE001
